@@ -115,7 +115,7 @@ CLAIMED["C11"] = (
 CLAIMED["C12"] = (
     "TLA+ spec specs/http/Idle.tla (virtual tyme, one service() per tick, client activity per tick: nothing / bytes of an unfinished "
     "request / a complete persistent request / a non persistent request answered by a streaming application in pieces, "
-    "stalled, or to a peer that stopped reading so that every send() would block; at most one Server.wind()): TLC exhaustive MC of the action properties ClosedOnlyIfIdle/IdleGetsClosed/"
+    "stalled, to a peer that stopped reading so that every send() would block, or to a peer that reads slowly so that a few bytes leave at every service; at most one Server.wind()): TLC exhaustive MC of the action properties ClosedOnlyIfIdle/IdleGetsClosed/"
     "TrafficKeepsOpen/PersistentStays for T in {1,2,3}; every behaviour executed on real http.Server (plain and TLS servant) and "
     "http.BareServer driven by a Tymist over scripted sockets, the tick at which the peer socket is closed compared (spec->code)",
     "Exhaustive model checking of the idle rule for every activity timing over 7 (quick) / 9 ticks and three tymeouts plus "
@@ -166,7 +166,7 @@ CLAIMED["C18"] = (
     "real server on every enumerated behaviour, judged through an independent HTTP parser.", "3 C18", "")
 CLAIMED["C19"] = (
     "TLA+ spec specs/http/ClientQueue.tla (request queue, in-flight request, redirect hops, current server, wire log, response "
-    "queue; server scripts ok / delayed / 201 Created with a Location field / redirect relative, absolute, two hops, other server, https->http / close before or "
+    "queue; server scripts ok / delayed / 201 Created with a Location field / 304 with a Content-Length field / redirect relative, absolute, two hops, other server, https->http / close before or "
     "during the answer): TLC exhaustive MC of OneAtATime/FifoOneToOne/WireInQueueOrder/RedirectTransparent/NoDowngrade/"
     "EveryRequestAnswered; every queue executed on a real http.Client over scripted sockets against a scripted peer, response queue "
     "and wire sequence compared (spec->code)",
